@@ -1,5 +1,6 @@
 """Per-property registry: which bounded models are checked and which scenario families are validated."""
 import fam_shapes as FS
+import fam_engine as FE
 
 COMMON_ASSUMPTIONS = [
     "TLC / SANY and the CommunityModules Json reader are trusted",
@@ -77,5 +78,16 @@ PROPERTIES = {
              "require": {"judged": 1000, "refusals": 50}},
         ],
         "rule": "a case = one image/filter/stride/batch combination with integer values; distinct by program hash",
+    },
+    "C02": {
+        "level_text": "TensorCore!Vjp defines the transpose-Jacobian of every operation from its forward definition (LinVjp: <seed, F(e_j)> on basis vectors for every operation linear in the differentiated operand; a table of scalar partials for the point-wise rest); TLC evaluates it for each operation x parameterisation x broadcast pattern x tracked subset with non-uniform (prime) seeds and the trace specification requires the gradients the real crate deposits to equal it bit for bit",
+        "level_note": TRACE_NOTE + "; transcendental operations (ln, exp, sigmoid, softmax, non-integer powf, general division) are judged in the real domain through spec-generated symbolic definitions",
+        "technique": "TLA+ spec (definition-derived VJPs) as case oracle + TLC trace validation of executions of the real crate",
+        "families": lambda tier, seed: [
+            {"name": "single_op_vjp", "cases": FE.c02_cases(tier, seed),
+             "what": "one operation per case, backward with a prime-valued seed, every deposited gradient compared: element-wise ops over broadcast pairs and tracked subsets, neg/scale/powf(-2..4)/reciprocal/relu/sum(k)/reshape, matmul (flags, additive term, leading patterns, rank-1 forms), conv (strides 1..3, batches), user operations",
+             "require": {"judged": 1500, "passes": 1500}},
+        ],
+        "rule": "a case = one operation with one parameterisation, operand shapes, tracked subset and seed; distinct by program hash",
     },
 }
